@@ -33,6 +33,8 @@ func ruleC19(c *Check) {
 	c.genesisValidators("C19.6")
 	c.storedValuesValidate("C19.6")
 	c.moduleWiring("C19.7", map[string]bool{"genesis": true})
+	c.paramSetExact("C19.8")
+	c.addressRoles("C19.9")
 }
 
 func (c *Check) zeroHeightRefunds(rule string) {
